@@ -166,6 +166,35 @@ def run(ck):
         _validate(ck, sw, name, beh, "every pop order, %s, numbers i*%d mod %d%s" % (
             bound, mul, c["PathMod"], ", every %d-th" % sample if sample else ""), scale)
 
+    def late(ms):
+        """Scripted, beyond the model's bounds: a slot capacity that is not an allocation size class of the container
+        (11, 15, 19, 22, 100 entries of 24 bytes: the backing array is larger than asked for), filled in a shuffled
+        arrival order; then late packets - numbers below the largest parked one - which must be refused while the
+        sequencer is full, one pop, and the same again."""
+        import random
+        rnd = random.Random(ck.seed * 977 + 5)
+        hs = []
+        for m in ms:
+            for rep in range(3):
+                seqs = list(range(10, 10 + m))
+                rnd.shuffle(seqs)
+                h = [dict(ev="New", mode="seq", roe=1, maxslots=m, maxbytes=4 * m)]
+                for q in seqs:
+                    h += [dict(ev="Save", seq=q, v=0, n=1), dict(ev="Push")]
+                for q in (3 + rep, 10 + m + 1, 2):      # late, in order, late: all refused
+                    h += [dict(ev="Save", seq=q, v=0, n=1), dict(ev="Push"), dict(ev="DropTail")]
+                h += [dict(ev="Pop", seq=10), dict(ev="Discard")]
+                h += [dict(ev="Save", seq=4, v=0, n=1), dict(ev="Push")]                        # room for one
+                h += [dict(ev="Save", seq=5, v=0, n=1), dict(ev="Push"), dict(ev="DropTail")]   # full again
+                for q in [4] + list(range(11, 10 + m)):
+                    h += [dict(ev="Pop", seq=q), dict(ev="Discard")]
+                hs.append(h)
+        beh = os.path.join(ck.work, "late.jsonl")
+        with open(beh, "w") as f:
+            for h in hs:
+                f.write(json.dumps(h) + "\n")
+        _validate(ck, sw, "late", beh, "scripted: late packets at a full sequencer, slot capacities %s" % (ms,))
+
     mul = (3, 5, 6, 2, 4)[ck.seed % 5]
     if quick:
         # seq-s: the slot limit binds; seq-b: the byte limit binds (and is not shadowed by the offsetter's index check)
@@ -174,7 +203,7 @@ def run(ck):
                 (sim, (4, "seq-r3", 300, 80)),
                 # every pop order of 4 parked packets (all sizes), then 1-2 more parked, then any stored number first:
                 # numbers ascending in save order, and one seed-chosen other arrival order with a 13-entry Fenwick array
-                (paths, ("path-4", 1, False)), (paths, ("path-4n", mul, False))]
+                (paths, ("path-4", 1, False)), (paths, ("path-4n", mul, False)), (late, ((11, 15, 22),))]
     else:
         jobs = [(strict, ("seq-d",)), (cover, ("seq-m",)), (cover, ("seq-b",)), (cover, ("off-s",)), (cover, ("offn-s",)),
                 (sim, (1, "seq-r", 10000, 100)), (sim, (2, "seq-r2", 6000, 200, 50)), (sim, (3, "off-r", 6000, 100)),
@@ -182,7 +211,7 @@ def run(ck):
                 # every pop order in both rounds for 4 parked packets (ascending, descending at 7 bytes per token, seed-chosen
                 # arrival order with a 13-entry Fenwick array); 5 parked packets: every first-round order, every third history
                 (paths, ("path-4", 1, True)), (paths, ("path-4", 6, True, 7)), (paths, ("path-4n", mul, True)),
-                (paths, ("path-5", 1 + ck.seed % 10, False, 1, 3))]
+                (paths, ("path-5", 1 + ck.seed % 10, False, 1, 3)), (late, ((11, 12, 15, 16, 19, 22, 100, 1000),))]
     with ThreadPoolExecutor(max_workers=4) as ex:
         futs = [ex.submit(f, *a) for f, a in jobs]
         for f in futs:
